@@ -758,8 +758,11 @@ def _overflow(ctx, oa, b, cfg, tr, bi, t):
             pass
     if binop == 'Add' and rhs_const1:
         # index of an enumerate + 1 (closure/iterator pattern)
-        if ao['o'] in ('local', 'arg', 'call', 'rvalue') and _from_enumerate(b, tr, a):
-            return 'table', ('any', sigk, 'enumerate-index+1'), ''
+        if ao['o'] in ('local', 'arg', 'call', 'rvalue') and _from_enumerate(b, tr, a, ctx.facts):
+            # (a proof, not a tabled precondition: the index of an enumerate() over an in-memory collection is < its length,
+            # and a collection's length is at most isize::MAX, so index + 1 cannot wrap a usize)
+            return 'discharged', 'enumerate-index+1', 'index of an enumerate() over an in-memory collection: index + 1 <= its ' \
+                'length <= isize::MAX'
     if binop == 'Add' and b.is_closure and (b.closure_of or '').endswith('total_shapes') or \
             (binop == 'Add' and 'total_shapes' in b.path) or (binop == 'Add' and 'initialise' in b.path):
         return 'table', ('any', sigk, 'sum-of-vec-lengths'), ''
@@ -848,13 +851,46 @@ def _slice_from_enumerate_index(b, cfg, tr, t):
     return 'start = enumerate index%s of the loop over _%d itself (never resized): start <= len' % (' + 1' if c else '', cont)
 
 
-def _from_enumerate(b, tr, op):
+def _from_enumerate(b, tr, op, facts=None, depth=0):
     o = tr.origin(op)
     # the tuple item (index, x) of an Enumerate: field .0 of the iterator's Some payload
     fp = field_path(o.get('p', []))
     if o['o'] == 'call' and call_matches(o['term'], '::next') and fp[-1:] == ['0']:
         ity = o['term']['args'][0].get('ty', '')
         return 'Enumerate' in ity or _enumerate_loop(b, tr, o['bb'])
+    if facts is None or not b.is_closure or depth > 3 or o['o'] != 'arg':
+        return False
+    sites = []
+    for cb in facts.bodies.values():
+        for bi2, bb in enumerate(cb.blocks):
+            for st in bb['stmts']:
+                if st['s'] == 'assign' and st['rv'].get('r') == 'aggr' and st['rv'].get('agg') == 'closure' and \
+                        facts.norm(st['rv']['closure']) == facts.norm(b.path):
+                    sites.append((cb, st))
+    if not sites:
+        return False
+    if o['l'] == 1:
+        # a captured variable: the same question about what was captured, where the closure is built
+        flds = [e['f'] for e in o['p'] if isinstance(e, dict) and 'f' in e]
+        if len(flds) != 1:
+            return False
+        return all(flds[0] < len(st['rv']['ops']) and 'l' in st['rv']['ops'][flds[0]] and
+                   _from_enumerate(cb, Tracer(cb), st['rv']['ops'][flds[0]], facts, depth + 1) for cb, st in sites)
+    if o['l'] == 2 and fp[:1] == ['0']:
+        # the closure's own item `(index, x)`: the closure is the argument of an adaptor / consumer of an Enumerate
+        for cb, st in sites:
+            cl = st['place']['l']
+            used = False
+            tcb = Tracer(cb)
+            for _bi, t2 in cb.calls():
+                for a2 in t2['args'][1:]:
+                    if 'l' in a2 and tcb.origin(a2).get('l') == cl or ('l' in a2 and a2['l'] == cl):
+                        if (t2['func'].get('trait') or '').endswith(('iter::Iterator', 'iterator::Iterator')) and \
+                                'Enumerate<' in str(t2['args'][0].get('ty', '')):
+                            used = True
+            if not used:
+                return False
+        return True
     return False
 
 
@@ -1358,7 +1394,9 @@ def _r3(ctx, oa):
             if l == 0:
                 o = tr.origin(s['rv']['a']) if s['rv']['r'] == 'use' else {'o': '?'}
                 if not (o['o'] == 'arg' and o['l'] != 1):
-                    bad.append((bi, 'return place assigned from something other than the state parameter'))
+                    from .C06 import _state_component_returned
+                    if not _state_component_returned(b, tr, defs, s['rv'], [i for i in b.args() if i != 1]):
+                        bad.append((bi, 'return place assigned from something other than the state parameter'))
                 continue
             outside = [u for u in uses_of_local(b, l) if u[0] not in region and u[0] in cfg.reach and not b.blocks[u[0]]['cleanup']]
             outside_defs = [d for d in defs.of(l) if d[0] not in region and d[0] in cfg.reach]
